@@ -16,7 +16,9 @@ def bo_graph(rng):
     a few nodes untagged (-1/-1), inner nodes partly on the reference, inversion links inside bubbles"""
     g = gen.Graph()
     nid = 0
-    bo = 0
+    # BO numbering does not have to start at 0: the per-chromosome file that order_gfa writes for a later chromosome continues the
+    # running count, so BO values can exceed the number of segments in the file
+    bo = rng.choice([0, 0, 0, 7, 40, 1000])
     region_names = rng.random() < 0.15     # region-style stable sequence names such as chr1:0-5000 (the SN value holds ':')
     for c in range(rng.randint(1, 3)):
         name = ("chr1:%d-%d" % (c * 5000, (c + 1) * 5000)) if region_names else "chr%d" % (c + 1)
